@@ -262,6 +262,11 @@ func guarded(f func() error) (err error) {
 	case err = <-done:
 		return err
 	case <-time.After(20 * time.Second):
+		// the abandoned call may hold a lock of the filespace for ever: everything after it could
+		// block too, so the run ends here with this failure
+		add("no-hang", currentInput, "a call did not return within 20 s; the run was stopped")
+		res.Exhausted = false
+		finish()
 		return fmt.Errorf("HANG: no return within 20s")
 	}
 }
@@ -271,7 +276,8 @@ func main() {
 	out := flag.String("out", "", "result file")
 	flag.Parse()
 	_ = input
-	start := time.Now()
+	startTime = time.Now()
+	outPath = *out
 	res.Exhausted = true
 	defer func() {
 		for _, d := range tmpDirs {
@@ -287,6 +293,7 @@ func main() {
 					res.Cases++
 					res.Nontriv++
 					id := fmt.Sprintf("%s existing=%d payload=%d chunk=%d", be.name, existing, n, chunk)
+					currentInput = id
 					fs := be.mk()
 					if existing >= 0 {
 						fs.WriteFile("x/f", payload(existing, 9), 0666)
@@ -389,6 +396,7 @@ func main() {
 		for _, h := range helpers {
 			res.Cases++
 			res.Nontriv++
+			currentInput = be.name + " " + h.name
 			dest := be.mk()
 			counter := &faultFS{fsIface: dest}
 			srcCounter := &faultFS{fsIface: source()}
@@ -417,6 +425,7 @@ func main() {
 					}
 					err := guarded(func() error { return h.run(fsrc, fd) })
 					id := fmt.Sprintf("%s into %s, %s operation %d of %d fails", h.name, be.name, side, k, n)
+					currentInput = id
 					if err != nil && (strings.HasPrefix(err.Error(), "PANIC") || strings.HasPrefix(err.Error(), "HANG")) {
 						add("fault-no-panic-no-hang", id, err.Error())
 						continue
@@ -430,17 +439,29 @@ func main() {
 			}
 		}
 	}
-	res.WallS = time.Since(start).Seconds()
+	finish()
+}
+
+var (
+	outPath      string
+	startTime    time.Time
+	currentInput = "(setup)"
+)
+
+// finish writes the result and ends the process
+func finish() {
+	res.WallS = time.Since(startTime).Seconds()
 	b, _ := json.MarshalIndent(res, "", " ")
-	if *out != "" {
-		os.WriteFile(*out, b, 0644)
+	if outPath != "" {
+		os.WriteFile(outPath, b, 0644)
 	} else {
 		fmt.Println(string(b))
 	}
+	for _, d := range tmpDirs {
+		os.RemoveAll(d)
+	}
 	if len(res.Failures) > 0 {
-		for _, d := range tmpDirs {
-			os.RemoveAll(d)
-		}
 		os.Exit(1)
 	}
+	os.Exit(0)
 }
